@@ -122,13 +122,13 @@ where
         true => {
             let iterator =
                 all_pairs_par_iter(graph, weighted, target, cutoff, first_only, with_paths);
-            iterator.collect::<Vec<(usize, Vec<(usize, ShortestPathInfo<usize>)>)>>()
+            iterator.collect::<Result<Vec<(usize, Vec<(usize, ShortestPathInfo<usize>)>)>, Error>>()
         }
         false => {
             let iterator = all_pairs_iter(graph, weighted, target, cutoff, first_only, with_paths);
-            iterator.collect::<Vec<(usize, Vec<(usize, ShortestPathInfo<usize>)>)>>()
+            iterator.collect::<Result<Vec<(usize, Vec<(usize, ShortestPathInfo<usize>)>)>, Error>>()
         }
-    };
+    }?;
     let x = shortest_paths_vecs
         .into_iter()
         .map(|(source, shortest_paths)| {
@@ -147,7 +147,7 @@ fn all_pairs_iter<'a, T, A>(
     cutoff: Option<f64>,
     first_only: bool,
     with_paths: bool,
-) -> impl Iterator<Item = (usize, Vec<(usize, ShortestPathInfo<usize>)>)> + 'a
+) -> impl Iterator<Item = Result<(usize, Vec<(usize, ShortestPathInfo<usize>)>), Error>> + 'a
 where
     T: Hash + Eq + Clone + Ord + Display + Send + Sync,
     A: Clone + Send + Sync,
@@ -171,9 +171,8 @@ where
                     first_only,
                     with_paths,
                 ),
-            }
-            .unwrap();
-            (node_index, ss_index)
+            }?;
+            Ok((node_index, ss_index))
         });
     x
 }
@@ -187,7 +186,7 @@ pub(crate) fn all_pairs_par_iter<'a, T, A>(
     with_paths: bool,
 ) -> rayon::iter::Map<
     rayon::vec::IntoIter<usize>,
-    impl Fn(usize) -> (usize, Vec<(usize, ShortestPathInfo<usize>)>) + 'a,
+    impl Fn(usize) -> Result<(usize, Vec<(usize, ShortestPathInfo<usize>)>), Error> + 'a,
 >
 where
     T: Hash + Eq + Clone + Ord + Display + Send + Sync + 'a,
@@ -212,9 +211,8 @@ where
                     first_only,
                     with_paths,
                 ),
-            }
-            .unwrap();
-            (node_index, ss_index)
+            }?;
+            Ok((node_index, ss_index))
         });
     x
 }
@@ -365,40 +363,34 @@ where
         true => sources
             .into_par_iter()
             .map(|source| {
-                (
+                single_source(
+                    graph,
+                    weighted,
                     source.clone(),
-                    single_source(
-                        graph,
-                        weighted,
-                        source.clone(),
-                        target.clone(),
-                        cutoff,
-                        first_only,
-                        with_paths,
-                    )
-                    .unwrap(),
+                    target.clone(),
+                    cutoff,
+                    first_only,
+                    with_paths,
                 )
+                .map(|paths| (source.clone(), paths))
             })
-            .collect(),
+            .collect::<Result<Vec<_>, Error>>(),
         false => sources
             .into_iter()
             .map(|source| {
-                (
+                single_source(
+                    graph,
+                    weighted,
                     source.clone(),
-                    single_source(
-                        graph,
-                        weighted,
-                        source.clone(),
-                        target.clone(),
-                        cutoff,
-                        first_only,
-                        with_paths,
-                    )
-                    .unwrap(),
+                    target.clone(),
+                    cutoff,
+                    first_only,
+                    with_paths,
                 )
+                .map(|paths| (source.clone(), paths))
             })
-            .collect(),
-    };
+            .collect::<Result<Vec<_>, Error>>(),
+    }?;
     Ok(shortest_paths.into_iter().collect())
 }
 
